@@ -17,6 +17,7 @@ REQUIRED_COUNTERS = ["episodes", "c01_episodes_checked"]
 MIN_NONTRIVIAL = {"quick": 5000, "thorough": 50000}
 WORKERS = {"quick": 12, "thorough": 16}
 BUDGET_S = {"quick": 400, "thorough": 3000}
+THOROUGH_ROUNDS = 3
 
 
 def cases(tier, seed):
